@@ -1,5 +1,6 @@
 import XcpModel.Walker
 import XcpProofs.GiTree
+import XcpProofs.GiConc
 /-! # C17 — `--gitignore` copies exactly the entries the root .gitignore does not exclude
 
 PARTIAL by nature: the pattern engine xcp uses is the third-party `ignore`/`globset` crate; no theorem is
@@ -177,5 +178,24 @@ theorem kept_entry_is_copied (fs : Fs) (c : Cfg) (hd : c.dereference = false) (h
 
 /-- … and with no pattern lines nothing is pruned -/
 theorem no_patterns_prune_nothing (rel : List Name) (n : Node) : Node.prune [] rel n = n := prune_nil' rel n
+
+/-- … under EVERY interleaving of the walker with the workers (any worker count, either driver): with patterns in force no
+operation can be made to fail and every complete run of the concurrent model leaves exactly the pruned source tree at the
+target — the operations of the pruned tree read from the places of the unpruned one, which nothing writes -/
+theorem every_interleaving_leaves_the_pruned_tree (fs : Fs) (c : Cfg) (hd : c.dereference = false) (hn : c.noClobber = false)
+    (ps : List Gi.Pattern)
+    (src tb : RPath) (srcNode : Node) (fuel : Nat)
+    (hwf : FsEq fs fs) (hroot : fs.root.isDir = true)
+    (hsrc : PlainTarget fs src) (hsn : fs.root.getAt src.names = some srcNode)
+    (hcop : srcNode.Copyable fuel)
+    (htb : PlainTarget fs tb) (hne : tb.names ≠ []) (habs : fs.root.getAt tb.names = none)
+    (hpar : ∃ es, fs.root.getAt tb.names.dropLast = some (.dir es))
+    (hun1 : ¬ src.names <+: tb.names) (hun2 : ¬ tb.names <+: src.names)
+    (hlen : src.names.length + fuel < 200 ∧ tb.names.length + fuel < 200)
+    (ls : List L0.Label) (st : L0.St)
+    (hrun : L0.run c (L0.init fs (walkEntry fs c (some ps) src tb (fuel + 1) [] [])) ls = some st) :
+    st.failed = false ∧
+    (L0.final st = true → FsEq st.fs { fs with root := fs.root.setAt tb.names (Node.prune ps [] srcNode) }) :=
+  gitignore_fresh_concurrent_ok fs c hd hn ps src tb srcNode fuel hwf hroot hsrc hsn hcop htb hne habs hpar hun1 hun2 hlen ls st hrun
 
 end Xcp.C17
